@@ -8,6 +8,10 @@ claimed = {
  "C02": ("C01's workload with Close/Open cycles at every position, per-run configuration changes, model-map oracle across reopen", "4.C02"),
  "C03": ("two-phase crash harness: crash decision before every mutating file operation of every goroutine (process-crash model), fresh process recovers on the same file-system model; acknowledged-commit oracle; native confirmation by running the real recovery on the engine's crash image", "4.C03"),
  "C04": ("C03's harness, assertion: the in-flight multi-key transaction is visible completely or not at all", "4.C04"),
+ "C05": ("shared transaction harness: library scripts (write skew, long reader, multi-key writer, read-modify-write, abandoned writer, delete, misuse) under every interleaving of their API calls, symbolic values and memtable threshold (rotation/flush/compaction with version GC between steps); assertion: every Get equals the snapshot at Begin overlaid with own writes", "4.C05"),
+ "C06": ("shared transaction harness; assertion: with the commit order as serial order every store read of a committed transaction equals the state just before its commit (plus the snapshot assertions for read-only transactions)", "4.C06"),
+ "C07": ("shared transaction harness; assertion: Commit returns ErrConflictTxn exactly when a key read from the store was written by a transaction committed after the snapshot", "4.C07"),
+ "C08": ("shared transaction harness; assertions: documented errors for misuse, failed Update closures and abandoned writers leave no trace in later reads, after flush/compaction and after reopen", "4.C08"),
  "C09": ("real flushToL0/checkAndCompact/compactL0/compactLN/discardStaleEntries/kway merge/recover on symbolic tables, watermark set through the real readMark; lookup-level oracle for every permitted read", "4.C09"),
  "C10": ("real flushToL0/searchLowerBound/Index search/Data.LowerBound/fetch/recover on symbolic sorted tables, symbolic block size and query; brute-force component oracle", "4.C10"),
  "C11": ("Decode(Encode(x)) == x and stability of returned bytes for Data/Index/Footer/Meta/table.Build/WAL with symbolic content; 16-bit boundary lengths (listed known finding)", "4.C11"),
@@ -17,10 +21,6 @@ claimed = {
  "C17": ("real skiplist Set/Delete/Get/LowerBound/Scan/All with symbolic keys, values, level coins against a symbolic slot-array sorted map", "4.C17"),
 }
 pending = {
- "C05": "check under construction (shared transaction harness VH_TXN not built yet)",
- "C06": "check under construction (shared transaction harness VH_TXN not built yet)",
- "C07": "check under construction (shared transaction harness VH_TXN not built yet)",
- "C08": "check under construction (shared transaction harness VH_TXN not built yet)",
  "C12": "check under construction (race monitor and gated native replay not wired into vcheck yet)",
  "C15": "check under construction (schedule exploration harness not built yet)",
 }
